@@ -4,10 +4,12 @@
    Models: Device/DButton.v (globals, setup sample, per-pass poll, cached is_pressed, host Button),
            Device/DPot.v, Device/DUltra.v (the emitted helper, line by line; clock, delay drift and
            echoes are explicit oracles).
-   Guard of the ultrasonic model: the millisecond clock does not wrap (clock < 2^32 ms); contact
-   bounce is outside the model (the "sampled signal" is what digitalRead returned). *)
+   The millisecond clock of the ultrasonic model is an unsigned long of W bits that rolls over
+   (millis() = true milliseconds mod 2^W, unsigned arithmetic mod 2^W); W is universally quantified
+   (32 on an AVR, 64 on the hosted mock core) and so is the start clock - the theorems hold across the
+   roll-over.  Contact bounce is outside the model (the "sampled signal" is what digitalRead returned). *)
 From Coq Require Import ZArith QArith List Bool Arith.
-From RV Require Import Device.DButton Device.DPot Device.DUltra Proofs.InputsP.
+From RV Require Import Base.Wire Device.DButton Device.DPot Device.DUltra Proofs.InputsP Wire.C15W Proofs.SketchP.
 Import ListNotations.
 
 (* ---------------------------------------------------------------- Button *)
@@ -149,6 +151,74 @@ Example C15_looptop_nonvacuous :
 Proof. vm_compute. repeat split; reflexivity. Qed.
 Print Assumptions C15_looptop_nonvacuous.
 
+(* ---- the sample in every syntactic position.  Wire/C15W.v interprets whole sketches: the polls of all buttons at the
+   head of loop(), then a loop body given as a statement tree in which is_pressed(), read() and measure_distance() occur
+   as print arguments, in assignments, arithmetic, call arguments, conditional expressions, if / elif / nested-while /
+   for-range conditions, under not / and / or, as sleep() arguments, directly or inside helper functions. *)
+
+(* no statement, whatever its shape and depth, touches the cached samples or reads a button pin *)
+Theorem C15_body_never_samples :
+  forall (fuel : nat) (sk : sketch) (g cnt : Z) (st : sstate) (stmt : wv),
+  s_btn (fst (exec fuel sk g cnt st stmt)) = s_btn st /\ no_dr (snd (exec fuel sk g cnt st stmt)).
+Proof. exact exec_ok. Qed.
+Print Assumptions C15_body_never_samples.
+
+(* nor does any expression or condition: every is_pressed() inside it is [do_pressed] on that same cached state *)
+Theorem C15_expressions_never_sample :
+  forall (fuel : nat) (sk : sketch) (g cnt : Z) (st : sstate) (e : wv),
+  (s_btn (fst (fst (eval_i fuel sk g cnt st e))) = s_btn st /\ no_dr (snd (fst (eval_i fuel sk g cnt st e)))) /\
+  (s_btn (fst (fst (eval_c fuel sk g cnt st e))) = s_btn st /\ no_dr (snd (fst (eval_c fuel sk g cnt st e)))) /\
+  (s_btn (fst (fst (eval_f fuel sk g cnt st e))) = s_btn st /\ no_dr (snd (fst (eval_f fuel sk g cnt st e)))).
+Proof.
+  exact (fun fuel sk g cnt st e =>
+           conj (proj1 (eval_ic_ok fuel) sk g cnt st e)
+                (conj (proj2 (eval_ic_ok fuel) sk g cnt st e) (eval_f_ok fuel sk g cnt st e))).
+Qed.
+Print Assumptions C15_expressions_never_sample.
+
+(* a whole pass: the digitalRead events of the pass are exactly one per button (declaration order), each returning
+   that pass's sample, and at the end of the pass (hence, by the two theorems above, at every point of the body) the
+   value is_pressed() returns is that sample *)
+Theorem C15_one_sample_per_pass_every_position :
+  forall (sk : sketch) (k : nat) (st : sstate),
+  length (s_btn st) = length (k_buttons sk) ->
+  filter is_dr (snd (run_pass sk k st)) =
+    map (fun bd => ev [1; bd_pin bd; boolz (sample_of bd k)]%Z) (k_buttons sk) /\
+  map b_value (s_btn (fst (run_pass sk k st))) = map (fun bd => sample_of bd k) (k_buttons sk).
+Proof. exact run_pass_ok. Qed.
+Print Assumptions C15_one_sample_per_pass_every_position.
+
+(* and so for every pass of a run of any length *)
+Theorem C15_one_sample_per_pass_whole_run :
+  forall (sk : sketch) (n k : nat) (st : sstate),
+  length (s_btn st) = length (k_buttons sk) ->
+  map pass_reads (run_passes sk n k st) =
+  map (fun j => map (fun bd => ev [1; bd_pin bd; boolz (sample_of bd j)]%Z) (k_buttons sk)) (seq k n).
+Proof. exact run_passes_ok. Qed.
+Print Assumptions C15_one_sample_per_pass_whole_run.
+
+(* non-vacuity: one button (pin 7, samples: setup 0, then 1 1 0), body
+     n = 0; while b.is_pressed() and n < 2: n = n + 1;  mon.write(n)
+     if not b.is_pressed(): mon.write(3)  else: mon.write(b.is_pressed() + 4)
+     for i in range(b.is_pressed() + 1): mon.write(i)
+   pass 0 (sample 1, rising edge): read, click, 2, 5, 0, 1;  pass 1 (held): read, 2, 5, 0, 1;  pass 2 (released): read, 0, 3, 0 *)
+Example C15_positions_nonvacuous :
+  let pressed := WL [WI 1; WI 0]%Z in
+  let sk := {| k_w := 32; k_drifts := []; k_passgaps := [];
+               k_buttons := [{| bd_pin := 7; bd_place := BeforeLoop; bd_h := Some 0%nat; bd_samples := [0; 1; 1; 0]%Z |}];
+               k_pots := []; k_ultras := []; k_gate := None;
+               k_body := [ WL [WI 33; WL [WI 10; pressed]; WI 2; WI 0; WL []];
+                           WL [WI 32; WL [WL [WL [WI 11; WL [WI 10; pressed]]; WL [WL [WI 30; WL [WI 0; WI 3]]]]];
+                                      WL [WL [WI 30; WL [WI 5; WI 0; pressed; WL [WI 0; WI 4]]]]];
+                           WL [WI 34; WL [WI 5; WI 0; pressed; WL [WI 0; WI 1]]; WL [WL [WI 30; WL [WI 4]]]] ]%Z |} in
+  run_sketch sk 3 0 =
+  WL [WI 0; WL [ev [1; 7; 0]];
+      WL [WL [ev [1; 7; 1]; ev [2; 0]; ev [3; 2]; ev [3; 5]; ev [3; 0]; ev [3; 1]];
+          WL [ev [1; 7; 1]; ev [3; 2]; ev [3; 5]; ev [3; 0]; ev [3; 1]];
+          WL [ev [1; 7; 0]; ev [3; 0]; ev [3; 3]; ev [3; 0]]]]%Z.
+Proof. vm_compute. reflexivity. Qed.
+Print Assumptions C15_positions_nonvacuous.
+
 (* ---------------------------------------------------------------- Potentiometer *)
 
 (* n read() calls are n analogRead events, all of the declared pin, each returning the next
@@ -172,39 +242,62 @@ Open Scope Z_scope.
 (* the first attempt (of at most three) whose echo does not time out decides the result:
    echo-time * 0.0343 / 2 = echo * 343 / 20000 cm *)
 Theorem C15_distance_formula :
-  forall (drift echo : nat -> Z) (st : ustate) (c : clock) (np j : nat) (e : Z),
+  forall (W : Z) (drift echo : nat -> Z) (st : ustate) (c : clock) (np j : nat) (e : Z),
   (j < 3)%nat ->
   (forall i, (i < j)%nat -> timed_out echo (np + i)) ->
   echo (np + j)%nat = e -> 0 < e <= 30000 ->
-  (r_val (u_measure drift echo st c np) == inject_Z e * (343 # 1) / (20000 # 1))%Q.
+  (r_val (u_measure W drift echo st c np) == inject_Z e * (343 # 1) / (20000 # 1))%Q.
 Proof. exact distance_formula. Qed.
 Print Assumptions C15_distance_formula.
 
 (* one call triggers the sensor at least once and at most three times, and consumes exactly
    that many echoes *)
 Theorem C15_attempts_le_3 :
-  forall (drift echo : nat -> Z) (st : ustate) (c : clock) (np : nat),
-  (1 <= length (trigs (r_evs (u_measure drift echo st c np))) <= 3)%nat /\
-  r_np (u_measure drift echo st c np) =
-    (np + length (trigs (r_evs (u_measure drift echo st c np))))%nat.
-Proof. exact (fun d e s c n => conj (attempts_le_3 d e s c n) (pulses_consumed d e s c n)). Qed.
+  forall (W : Z) (drift echo : nat -> Z) (st : ustate) (c : clock) (np : nat),
+  (1 <= length (trigs (r_evs (u_measure W drift echo st c np))) <= 3)%nat /\
+  r_np (u_measure W drift echo st c np) =
+    (np + length (trigs (r_evs (u_measure W drift echo st c np))))%nat.
+Proof. exact (fun w d e s c n => conj (attempts_le_3 w d e s c n) (pulses_consumed w d e s c n)). Qed.
 Print Assumptions C15_attempts_le_3.
 
-(* back-off, over whole histories: calls separated by arbitrary non-negative stretches of time
-   and any number of foreign delay() calls, any echoes, any non-negative delay drifts, any start
-   clock: two consecutive triggers are >= 60 ms of millis() apart unless the trigger time stored
-   after the first was 0 *)
+(* back-off, over whole histories and for every width W of the unsigned long millisecond counter:
+   calls separated by arbitrary non-negative stretches of time (no upper bound: the counter may roll
+   over any number of times in between) and any number of foreign delay() calls, any echoes, any
+   non-negative delay drifts, ANY start clock (in particular within 60 ms of the roll-over, or past it):
+   two consecutive triggers are >= 60 ms of TRUE time apart (whole milliseconds of the un-wrapped clock)
+   unless the unsigned long stored after the first was 0 *)
 Theorem C15_backoff :
-  forall (drift echo : nat -> Z) (c0 : clock) (gs : list gap),
+  forall (W : Z) (drift echo : nat -> Z) (c0 : clock) (gs : list gap),
+  0 <= W ->
   (forall k, 0 <= drift k) -> 0 <= now_us c0 -> Forall (fun g => 0 <= g_us g) gs ->
-  all_spaced (trigs (history_events (u_calls drift echo u_init c0 0 gs))).
+  all_spaced (trigs (history_events (u_calls W drift echo u_init c0 0 gs))).
 Proof. exact backoff_history. Qed.
 Print Assumptions C15_backoff.
+
+(* under the same hypotheses every delay() the helper issues is between 1 and 60 ms (a test against
+   an absolute deadline last+60 would ask for about 2^W ms when only the deadline has rolled over) *)
+Theorem C15_backoff_delays_bounded :
+  forall (W : Z) (drift echo : nat -> Z) (c0 : clock) (gs : list gap),
+  0 <= W ->
+  (forall k, 0 <= drift k) -> 0 <= now_us c0 -> Forall (fun g => 0 <= g_us g) gs ->
+  Forall (fun d => 1 <= d <= 60) (delays (history_events (u_calls W drift echo u_init c0 0 gs))).
+Proof. exact backoff_delays_bounded. Qed.
+Print Assumptions C15_backoff_delays_bounded.
+
+(* what "the stored time was 0" means: the stored unsigned long is the true millisecond count, taken
+   no earlier than the trigger, modulo 2^W - it is 0 in the first millisecond after power-up (the
+   statement's "once the millisecond clock is running") and again at every exact multiple of 2^W *)
+Theorem C15_stored_time_is_wrapped_true_time :
+  forall (W : Z) (drift echo : nat -> Z) (st : ustate) (c : clock) (np : nat),
+  let a := u_attempt W drift echo st c np in
+  a_stamp a = wrap W (true_ms (a_clk a)) /\ a_t a / 1000 <= true_ms (a_clk a).
+Proof. exact stamp_after_trigger. Qed.
+Print Assumptions C15_stored_time_is_wrapped_true_time.
 
 (* three time-outs in one call: the result is the distance of the last echo, anywhere earlier in
    the history, that did not time out - 400 if there was none *)
 Theorem C15_fallback :
-  forall (drift echo : nat -> Z) (c0 : clock) (gs : list gap),
+  forall (W : Z) (drift echo : nat -> Z) (c0 : clock) (gs : list gap),
   Forall (fun x =>
             timed_out echo (fst x) -> timed_out echo (S (fst x)) -> timed_out echo (S (S (fst x))) ->
             (r_val (snd x) ==
@@ -212,16 +305,16 @@ Theorem C15_fallback :
              | Some e => inject_Z e * (343 # 1) / (20000 # 1)
              | None => 400 # 1
              end)%Q)
-         (u_calls drift echo u_init c0 0 gs).
+         (u_calls W drift echo u_init c0 0 gs).
 Proof. exact fallback_history. Qed.
 Print Assumptions C15_fallback.
 
 (* the same for one call from any state: it also made exactly three attempts *)
 Theorem C15_fallback_call :
-  forall (drift echo : nat -> Z) (st : ustate) (c : clock) (np : nat),
+  forall (W : Z) (drift echo : nat -> Z) (st : ustate) (c : clock) (np : nat),
   timed_out echo np -> timed_out echo (S np) -> timed_out echo (S (S np)) ->
-  r_val (u_measure drift echo st c np) = (if has_dist st then last_dist st else 400 # 1) /\
-  length (trigs (r_evs (u_measure drift echo st c np))) = 3%nat.
+  r_val (u_measure W drift echo st c np) = (if has_dist st then last_dist st else 400 # 1) /\
+  length (trigs (r_evs (u_measure W drift echo st c np))) = 3%nat.
 Proof. exact fallback_call. Qed.
 Print Assumptions C15_fallback_call.
 
@@ -234,19 +327,42 @@ Example C15_ultra_nonvacuous :
   let echo := fun k : nat => nth k [58; 0; 0; 0; 1000] 30001 in
   let c0 := {| now_us := 1000000; ndelay := 0 |} in
   let gs := [{| g_us := 0; g_delays := 0 |}; {| g_us := 25000; g_delays := 1 |}; {| g_us := 25000; g_delays := 1 |}] in
-  let h := u_calls drift echo u_init c0 0 gs in
+  let h := u_calls 32 drift echo u_init c0 0 gs in
   map (fun x => Qred (r_val (snd x))) h = [(9947 # 10000)%Q; (9947 # 10000)%Q; (343 # 20)%Q] /\
   trigs (history_events h) =
     [(1000002, 58, 1000); (1067072, 0, 1097); (1164084, 0, 1194); (1261096, 0, 1291); (1358108, 1000, 1359)] /\
+  delays (history_events h) = [35; 60; 60; 35] /\
   (forall k, 0 <= drift k) /\ 0 <= now_us c0 /\ Forall (fun g => 0 <= g_us g) gs /\
   timed_out echo 1 /\ timed_out echo 2 /\ timed_out echo 3 /\ last_good echo 1 = Some 58.
 Proof.
-  cbv zeta. split; [vm_compute; reflexivity|]. split; [vm_compute; reflexivity|].
+  cbv zeta. split; [vm_compute; reflexivity|]. split; [vm_compute; reflexivity|]. split; [vm_compute; reflexivity|].
   split; [intros _; discriminate|]. split; [discriminate|].
   split; [repeat constructor; discriminate|].
   repeat split; reflexivity.
 Qed.
 Print Assumptions C15_ultra_nonvacuous.
+
+(* non-vacuity across the roll-over: the same history started 30 ms before a 32-bit counter rolls over
+   and 100 ms before a 64-bit one does.  The stored times wrap (4294967266 -> 67; ...613 -> 94), the
+   back-off delays are the same 35 / 60 / 60 / 35 ms as far away from the roll-over, and the true
+   trigger times stay >= 60 ms apart. *)
+Example C15_ultra_rollover_nonvacuous :
+  let drift := fun _ : nat => 7 in
+  let echo := fun k : nat => nth k [58; 0; 0; 0; 1000] 30001 in
+  let gs := [{| g_us := 0; g_delays := 0 |}; {| g_us := 25000; g_delays := 1 |}; {| g_us := 25000; g_delays := 1 |}] in
+  let h32 := u_calls 32 drift echo u_init {| now_us := (2 ^ 32 - 30) * 1000; ndelay := 0 |} 0 gs in
+  let h64 := u_calls 64 drift echo u_init {| now_us := (2 ^ 64 - 100) * 1000; ndelay := 0 |} 0 gs in
+  trigs (history_events h32) =
+    [(4294967266002, 58, 4294967266); (4294967333072, 0, 67); (4294967430084, 0, 164);
+     (4294967527096, 0, 261); (4294967624108, 1000, 329)] /\
+  delays (history_events h32) = [35; 60; 60; 35] /\
+  trigs (history_events h64) =
+    [(18446744073709551516002, 58, 18446744073709551516); (18446744073709551583072, 0, 18446744073709551613);
+     (18446744073709551680084, 0, 94); (18446744073709551777096, 0, 191); (18446744073709551874108, 1000, 259)] /\
+  delays (history_events h64) = [35; 60; 60; 35] /\
+  map (fun x => Qred (r_val (snd x))) h64 = [(9947 # 10000)%Q; (9947 # 10000)%Q; (343 # 20)%Q].
+Proof. cbv zeta. repeat split; vm_compute; reflexivity. Qed.
+Print Assumptions C15_ultra_rollover_nonvacuous.
 
 (* the exemption is real: with the clock still at 0 ms after the first echo the stored trigger
    time is 0 and the next call triggers again at once (the statement's "once the millisecond
@@ -254,8 +370,20 @@ Print Assumptions C15_ultra_nonvacuous.
 Example C15_backoff_exemption :
   let echo := fun _ : nat => 58 in
   let c0 := {| now_us := 0; ndelay := 0 |} in
-  trigs (history_events (u_calls (fun _ => 0) echo u_init c0 0
+  trigs (history_events (u_calls 32 (fun _ => 0) echo u_init c0 0
                                  [{| g_us := 0; g_delays := 0 |}; {| g_us := 0; g_delays := 0 |}])) =
   [(2, 58, 0); (72, 58, 0)].
 Proof. vm_compute. reflexivity. Qed.
 Print Assumptions C15_backoff_exemption.
+
+(* ... and it comes back at every roll-over: a trigger whose stored time lands exactly on a multiple of
+   2^W ms stores 0, and the next call - although the clock has been running for 49.7 days (W = 32) -
+   triggers again 1 ms later without any back-off (finding F-C15-backoff-skipped-at-rollover-zero;
+   outside the guard "stored time <> 0" of C15_backoff) *)
+Theorem C15_backoff_rollover_zero_refuted :
+  exists (W : Z) (drift echo : nat -> Z) (c0 : clock) (gs : list gap) (t1 d1 t2 d2 m2 : Z),
+    0 <= W /\ (forall k, 0 <= drift k) /\ Forall (fun g => 0 <= g_us g) gs /\
+    trigs (history_events (u_calls W drift echo u_init c0 0 gs)) = [(t1, d1, 0); (t2, d2, m2)] /\
+    60 <= t1 / 1000 /\ t2 / 1000 - t1 / 1000 < 60.
+Proof. exact backoff_rollover_zero_refuted. Qed.
+Print Assumptions C15_backoff_rollover_zero_refuted.
